@@ -69,7 +69,7 @@ def observe (b : B) (srv : S) (ks : List String) : String :=
     let q := match b.latest s with | some q => s!"{fb q.bid} {fb q.ask}" | none => "- -"
     s!"{s} {optF (posValue b s)} {optF (posLiq b s)} {optF (costBasis b.log s)} {optF (positionProfit b s)} {q}")
   let hp : String → Option Float := holdPend b
-  s!"G {fb b.cash} ; H {showMap b.hold} ; P {showMap b.pend} ; HP {showMap hp} ; S {st} ; TV {fb (totalValue b ks)} ; LV {fb (liqValue b ks)} ; K {srv.pos} {srv.date} ; T {b.log.length} {joinSp (b.log.map Drv.Uist.showTrade)} ; V {joinSp per} ; XB {srv.exch.buffer.length} {joinSp (srv.exch.buffer.map Drv.Uist.showOrder)} ; XK {srv.exch.book.inner.length} {joinSp (srv.exch.book.inner.map Drv.Uist.showOrder)} ; XL {srv.exch.log.length} ; W {ks.length} {joinSp ks}"
+  s!"G {fb b.cash} ; H {showMap b.hold} ; P {showMap b.pend} ; HP {showMap hp} ; S {st} ; TV {fb (totalValue b ks)} ; LV {fb (liqValue b ks)} ; K {srv.pos} {srv.date} ; T {b.log.length} {joinSp (b.log.map Drv.Uist.showTrade)} ; V {joinSp per} ; XB {srv.exch.buffer.length} {joinSp (srv.exch.buffer.map Drv.Uist.showOrder)} ; XK {srv.exch.book.inner.length} {joinSp (srv.exch.book.inner.map Drv.Uist.showOrder)} ; XL {srv.exch.log.length} {joinSp (srv.exch.log.map Drv.Uist.showTrade)} ; W {ks.length} {joinSp ks}"
 
 def step (w : W) (ts : List String) : W × String :=
   let (op, secs) := splitAnn ts
